@@ -716,4 +716,58 @@ theorem replaceStep_inline_wf (S : Schema) (hdet : DetS S) (hfill : FillersOK S)
         exact fitterFit_wf_of_loop S hdet hfill hf ht hattrs sl _ st0 st1 h0 hl inv.frok inv.ne inv.sp st h
     · simp [throw, throwThe, MonadExceptOf.throw] at h
 
+/-! ### the full statement, reduced to the in-step invariant at the end of the loop -/
+
+theorem getLast_of_spineR : ∀ (l : List Node), 1 ≤ spineR l → ∃ t a m k, l.getLast? = some (.elem t a m k)
+  | [], h => by simp [spineR] at h
+  | [x], h => by
+    cases x with
+    | elem t a m k => exact ⟨t, a, m, k, rfl⟩
+    | text s m => simp [spineR] at h
+    | leaf t a m => simp [spineR] at h
+  | x :: y :: ys, h => by
+    have h' : 1 ≤ spineR (y :: ys) := by simpa [spineR] using h
+    obtain ⟨t, a, m, k, hl⟩ := getLast_of_spineR (y :: ys) h'
+    exact ⟨t, a, m, k, by rw [List.getLast?_cons_cons]; exact hl⟩
+
+theorem spineR_rspineOK : ∀ (d : Nat) (l : List Node), d ≤ spineR l → rspineOK d l
+  | 0, _, _ => trivial
+  | d + 1, l, h => by
+    obtain ⟨t, a, m, k, hl⟩ := getLast_of_spineR l (by omega)
+    rw [spineR_of_getLast l t a m k hl] at h
+    exact ⟨t, a, m, k, hl, spineR_rspineOK d k (by omega)⟩
+
+/-- if the loop of `fit` ends with `placed` and the frontier in step, the emitted step is well-formed -/
+theorem replaceStep_wf_of_inStep (S : Schema) (hdet : DetS S) (hfill : FillersOK S) (doc : Node) (f t : Nat)
+    (sl : Slice) (hattrs : S.nodeAttrsOK doc = true) (hwf : sl.wf = true) (st : Step)
+    (h : replaceStep S doc f t sl = .ok (some st))
+    (hin : ∀ rf st0 st1, doc.resolve f = some rf → fitInit S rf sl = .ok st0 →
+      fitLoop S (fitFuel S sl) st0 = .ok st1 → st1.inStepB = true) : StepWF st = true := by
+  unfold replaceStep at h
+  split at h
+  · simp [pure, Except.pure] at h
+  · split at h
+    · rename_i rf rt hf ht
+      split at h
+      · simp [throw, throwThe, MonadExceptOf.throw] at h
+      · have := pure_ok h
+        simp only [Option.some.injEq] at this
+        subst this
+        exact hwf
+      · have h' := h
+        unfold fitterFit at h'
+        obtain ⟨st0, h0, h'⟩ := FM.bind_ok h'
+        obtain ⟨st1, h1, _⟩ := FM.bind_ok h'
+        have hi := hin rf st0 st1 hf h0 h1
+        simp only [FitState.inStepB, Bool.and_eq_true, Bool.not_eq_eq_eq_not, Bool.not_true, List.all_eq_true,
+          decide_eq_true_eq] at hi
+        obtain ⟨⟨hne, hall⟩, hsp⟩ := hi
+        refine fitterFit_wf_of_loop S hdet hfill hf ht hattrs sl _ st0 st1 h0 h1 ?_ ?_ (spineR_rspineOK _ _ hsp) st h
+        · intro it hit
+          exact Option.isSome_iff_exists.1 (hall it hit)
+        · intro h0
+          rw [h0] at hne
+          simp at hne
+    · simp [throw, throwThe, MonadExceptOf.throw] at h
+
 end PM
